@@ -4,7 +4,13 @@ Oracle: independent forward simulator (vlib.sim / vlib.geom): peaks with
 ground-truth (grain id, hkl) from known strained grains at known positions, for
 geometry classes with flips, tilts, wedge, chi, omegasign.  The real
 refinegrains flow (files in, files out) is run from perturbed starts and the
-refined values, labels and saved files are compared with the truth.
+refined values, labels and saved files are compared with the truth; the saved
+per-peak columns are recomputed with the harness geometry model from the saved
+grain (translation, UBI) and the saved omega.
+
+Every dimension of a scenario is drawn from the scenario's own generator
+rng(seed, "C09", idx) (plus two small tables of forced classes so that every
+class is present in the quick tier); a replay needs only (seed, idx, use_script).
 """
 import contextlib, io, os, shutil, subprocess, sys, tempfile
 import numpy as np
@@ -12,17 +18,71 @@ from .. import xtal, sim, geom
 from ..common import rng, WORK, PY, REPO
 
 TECHNIQUE = ("runtime ground-truth monitor: harness forward simulator (closed-form Laue solution, ray/detector intersection) "
-             "-> real refinegrains file flow (loadparameters/loadfiltered/readubis/generate_grains/refinepositions/refineubis/"
-             "savegrains, and scripts/makemap.py) -> refined UBI/translation/labels/saved h,k,l compared with the generating values")
-LEVEL_TEXT = ("Exploration: 1..5 strained grains (<=5e-3) at |t|<=500um, geometry classes of C01 (all flips, pixel signs, tilts, "
-              "wedge, chi, omegasign), omega floated or as observed, starts perturbed by 0.1-0.5 deg and <=50um; exact (noise-free) "
-              "peaks so the optimum is the truth. Every scenario checks the refined state against the truth on the optimiser's own objective (excess <= 2 in 1e6<drlv2>), UBI (1e-4 rel), translation (25um per grain; median <= 0.75um, p90 <= 2um over the run), per-peak label = "
-              "generator, saved hkl = simulated hkl, saved files = in-memory values to print precision.")
+             "-> real refinegrains file flow (loadparameters/loadfiltered/readubis/[makeuniq]/generate_grains/refinepositions/"
+             "refineubis/savegrains, and scripts/makemap.py with its -l/-s/-F/sort options) -> refined UBI/translation/labels/"
+             "saved h,k,l compared with the generating values; saved per-peak columns (gx,gy,gz,tth/eta/omegacalc_per_grain,"
+             "hr,kr,lr,drlv2) and npks/nuniq recomputed with the harness geometry model from the saved grain")
+LEVEL_TEXT = ("Exploration: 1..5 strained grains (<=5e-3) at |t|<=500um, geometry classes of C01 (flips, pixel signs, tilts, wedge, chi, "
+              "omegasign), omega floated (slop 0.05/0.25/0.5) or as observed, tolerance 0.05/0.1/0.2, cells cubic F/I, tetragonal, "
+              "orthorhombic, hexagonal, monoclinic, triclinic; triclinic or matching latticesymmetry constraint (then symmetry-preserving "
+              "strain), optional makeuniq, 5-15% unindexable junk peaks, stale t_x,t_y,t_z in the parameter file, start grains without "
+              "translations, xc/yc columns, sorted/unsorted grain files; all drawn independently per scenario. Starts 0.1-0.5 deg (scaled "
+              "with tolerance) and <=50um off; exact peaks, so the optimum is the truth. Every peak unambiguous under the *starting* grains "
+              "must carry its generator's label (junk: -1, hkl 0); scenarios with all labels right are judged on the optimiser's objective "
+              "(excess <= 2 in 1e6<drlv2>), UBI (1e-4 rel), translation (25um; run-level median <= 0.4um, p90 <= 1um; UBI median <= 2.5e-7, "
+              "p90 <= 1.2e-6), saved hkl = simulated hkl (up to the makeuniq operator, which must be a lattice automorphism); saved columns "
+              "= harness model of the saved grain to storage/print precision; saved files = in-memory values.")
 LEVEL_NOTE = ("Trusts the harness simulator (cross-checked against the C01 model to 2e-15) and the stated optimiser tolerances "
-              "(empirical: worst observed 6e-6 / 3.4um / 0.031; thresholds 3-10x above); peak files carry 4 decimals.")
+              "(empirical over ~5000 grains, two thorough runs: worst observed UBI 1.3e-5 / 10um / objective excess 0.31; per-grain caps 2.5-8x above, run-level limits 3x above the largest run-level values); peak files carry 4 decimals. "
+              "Not covered (outside the statement): refinegrains.fit()/fitgrain.py (global geometry refinement), filtergrain.py, "
+              "noisy peaks.")
 
-RULE = ("a scenario = (geometry class bits+flip, n grains, OmFloat, perturbation); non-trivial = geometry has >= 2 switches on or "
-        ">= 2 grains; distinct = (flip, bits, ngrains, omfloat)")
+RULE = ("a scenario = (geometry class bits+flip, n grains, OmFloat/slop, tolerance, cell kind, constraint, uniq, junk, translation "
+        "source, column names, sort, route); non-trivial = geometry has >= 2 switches on or >= 2 grains; distinct = the tuple of "
+        "these dimensions")
+
+# (cell kind, centring, refinegrains.latticesymmetry / sym_u group name)
+CELLS = [("cubic", "F", "cubic"), ("cubic", "I", "cubic"), ("tetragonal", "P", "tetragonal"),
+         ("orthorhombic", "P", "orthorhombic"), ("hexagonal", "P", "hexagonal"), ("monoclinic", "P", "monoclinic_b"),
+         ("triclinic", "P", None)]
+CELL_W = [0.34, 0.06, 0.12, 0.12, 0.12, 0.12, 0.12]
+
+# forced classes (everything not named is still drawn from the scenario's rng).  in-memory route: idx 8..
+FORCED_MEM = [
+    dict(ng=5, omfloat=True, cell=0, lattice=False, plainubi=False, tol=0.1),
+    dict(ng=3, omfloat=True, cell=0, lattice=False, plainubi=False, tol=0.1),
+    dict(ng=1, omfloat=True),
+    dict(ng=1, omfloat=False),
+    dict(ng=3, omfloat=False, cell=0, lattice=False, plainubi=False, tol=0.1),
+    dict(ng=2, cell=2, lattice=True, plainubi=False),
+    dict(ng=1, cell=4, lattice=True),
+    dict(ng=2, cell=6, plainubi=False),
+    dict(ng=2, junk=True, plainubi=False, cell=0),
+    dict(ng=1, junk=True, cell=3),
+    dict(ng=1, plainubi=True),
+    dict(ng=2, plainubi=True, cell=0, tol=0.1),
+    dict(ng=2, partrans=True, plainubi=False),
+    dict(ng=1, xcyc=True),
+    dict(ng=3, sort=True, plainubi=False, cell=0, tol=0.1),
+    dict(ng=1, uniq=True, cell=0),
+    dict(ng=2, uniq=True, cell=2, plainubi=False),
+    dict(ng=1, cell=5, lattice=True),
+    dict(ng=1, cell=1, lattice=True, omfloat=True),
+    dict(ng=2, omfloat=True, slop=0.05, plainubi=False),
+    dict(ng=2, omfloat=True, slop=0.5, plainubi=False),
+    dict(ng=1, tol=0.05),
+    dict(ng=2, tol=0.2, cell=0, plainubi=False),
+    dict(ng=1, uniq=True, cell=4),
+]
+# script route: idx 1000..
+FORCED_SCRIPT = [
+    dict(ng=3, sort=True, junk=True, plainubi=False, cell=0, tol=0.1),
+    dict(ng=2, sort=False, uniq=True, cell=0, plainubi=False),
+    dict(ng=2, sort=True, cell=2, lattice=True, plainubi=False),
+    dict(ng=1, junk=True, omfloat=False),
+    dict(ng=1, plainubi=True, partrans=False),
+    dict(ng=2, sort=True, cell=4, uniq=True, plainubi=False),
+]
 
 
 def quiet():
@@ -46,38 +106,222 @@ def objective_terms(p, sc, fc, om, ubi, t, omfloat):
     return (d * d).sum(axis=1)
 
 
-def one_scenario(run, seed, idx, mods, use_script=False):
-    refinegrains, columnfile, parameters, grain = mods
+def hkl_err(p, sc, fc, om, ubi, t):
+    """(n,3) h - rint(h) of the peaks for one grain, harness geometry model"""
+    g = np.asarray(geom.forward(p, sc, fc, om, t)["g"], float)
+    h = g @ np.asarray(ubi, float).T
+    return h - np.rint(h)
+
+
+def e_under(dh, M):
+    """squared hkl error of the same peaks when the lattice is re-described by the integer operator M
+    (UBI -> M.UBI, h -> M.h): the error vector becomes M.dh, re-reduced to the nearest lattice point"""
+    x = dh @ np.asarray(M, float).T
+    x = x - np.rint(x)
+    return (x * x).sum(axis=1)
+
+
+def lattice_rotations(G0):
+    """all integer matrices with entries in {-1,0,1}, det +1, M.G0.M^T = G0: the proper symmetry operations of
+    the lattice with metric G0 acting on the rows of a UBI (brute force, independent of ImageD11.sym_u)"""
+    import itertools
+    out = []
+    rows = [np.array(v, float) for v in itertools.product((-1, 0, 1), repeat=3) if any(v)]
+    scale = np.abs(G0).max()
+    cand = [[r_ for r_ in rows if abs(r_ @ G0 @ r_ - G0[i, i]) < 1e-9 * scale] for i in range(3)]
+    for a in cand[0]:
+        for b in cand[1]:
+            if abs(a @ G0 @ b - G0[0, 1]) > 1e-9 * scale:
+                continue
+            for c_ in cand[2]:
+                M = np.array([a, b, c_])
+                if abs(np.linalg.det(M) - 1) < 1e-9 and np.abs(M @ G0 @ M.T - G0).max() < 1e-9 * scale:
+                    out.append(M)
+    return out
+
+
+def as_written(x, fmt):
+    """the value the library reads back from a text file written with fmt"""
+    return np.array([float(fmt % v) for v in np.ravel(x)]).reshape(np.shape(x))
+
+
+def model_columns(p, sc, fc, om, t, ubi, omega_signed_for_g):
+    """What savegrains must have stored for the peaks of one grain, from the harness geometry model:
+    tth/eta are taken with the grain origin at the *observed* omega (that is what the flow documents:
+    'tth, eta do not change much'); g is rotated back with omega_signed_for_g (observed*omegasign, or the
+    floated omega).  Returns tth, eta, g (n,3), hkl_real (n,3) in float64."""
+    out = geom.forward(p, sc, fc, om, t)
+    WC = geom.Wmat(p["wedge"]) @ geom.Cmat(p["chi"])
+    v = out["k"] @ WC
+    Om = geom.omega_mats(np.asarray(omega_signed_for_g, dtype=geom.F))
+    g = np.asarray(np.einsum("nji,nj->ni", Om, v), float)
+    d = np.asarray(out["d"], float)
+    lever = (np.sqrt((d * d).sum(axis=1)), np.hypot(d[:, 1], d[:, 2]))   # ray length, distance from the beam axis
+    return np.asarray(out["tth"], float), np.asarray(out["eta"], float), g, g @ np.asarray(ubi, float).T, lever
+
+
+def make_cell(r, kind):
+    if kind == "cubic":
+        return xtal.random_cell(r, "cubic", 3.6, 4.2)
+    if kind == "triclinic":
+        while True:
+            a, b, c = r.uniform(3.2, 5.5, 3)
+            al, be, ga = r.uniform(75, 105, 3)
+            cell = [float(x) for x in (a, b, c, al, be, ga)]
+            if xtal.volume_ok(cell, 0.5):
+                return cell
+    if kind == "monoclinic":
+        a, b, c = r.uniform(3.2, 5.5, 3)
+        return [float(a), float(b), float(c), 90.0, float(r.uniform(93, 110)), 90.0]
+    return xtal.random_cell(r, kind, 3.2, 5.5)
+
+
+def strained_cell(r, cell, kind, mag=5e-3):
+    """a cell of the same symmetry as `cell` whose metric differs by a strain <= mag"""
+    a, b, c, al, be, ga = cell
+    e = r.uniform(-mag, mag, 4)
+    if kind == "cubic":
+        return [a * (1 + e[0])] * 3 + [90.0, 90.0, 90.0]
+    if kind == "tetragonal":
+        return [a * (1 + e[0]), a * (1 + e[0]), c * (1 + e[2]), 90.0, 90.0, 90.0]
+    if kind == "hexagonal":
+        return [a * (1 + e[0]), a * (1 + e[0]), c * (1 + e[2]), 90.0, 90.0, 120.0]
+    if kind == "orthorhombic":
+        return [a * (1 + e[0]), b * (1 + e[1]), c * (1 + e[2]), 90.0, 90.0, 90.0]
+    if kind == "monoclinic":
+        return [a * (1 + e[0]), b * (1 + e[1]), c * (1 + e[2]), 90.0, be + float(np.degrees(e[3])) * 0.5, 90.0]
+    raise ValueError(kind)
+
+
+def draw_config(seed, idx, use_script=False):
+    """All dimensions of scenario idx; pure harness code (also used to tabulate coverage)."""
     r = rng(seed, "C09", idx)
     bits = int(r.integers(2048)) & ~(0b111 << 6)
     if idx < 8:
-        bits = [0, 0b11111, 1 << 5, (1 << 9) | (1 << 10), 0b11000, 0b00111, (1 << 5) | 0b11000, 0b11111 | (1 << 5) | (3 << 9)][idx]
-    flip = idx % 8
+        bits = [0, 0b11111, 1 << 5, (1 << 9) | (1 << 10), 0b11000, 0b00111, (1 << 5) | 0b11000,
+                0b11111 | (1 << 5) | (3 << 9)][idx]
+    c = dict(index=idx, use_script=bool(use_script), bits=bits)
+    c["flip"] = int(r.integers(8))
+    c["ng"] = int(r.choice([1, 2, 3, 5]))
+    c["omfloat"] = bool(r.integers(2))
+    c["slop"] = float(r.choice([0.05, 0.25, 0.5]))
+    c["tol"] = float(r.choice([0.05, 0.1, 0.1, 0.2]))
+    c["cell"] = int(r.choice(len(CELLS), p=CELL_W))
+    c["lattice"] = bool(r.random() < 0.35)
+    c["uniq"] = bool(r.random() < 0.25)
+    c["junk"] = bool(r.random() < 0.5)
+    c["partrans"] = bool(r.random() < 0.4)
+    c["plainubi"] = bool(r.random() < 0.12)
+    c["xcyc"] = bool(r.random() < 0.2)
+    c["sort"] = bool(r.random() < 0.5)
+    c["newflt"] = bool(r.random() < 0.5)
+    forced = None
+    if use_script and 0 <= idx - 1000 < len(FORCED_SCRIPT):
+        forced = FORCED_SCRIPT[idx - 1000]
+    elif not use_script and 0 <= idx - 8 < len(FORCED_MEM):
+        forced = FORCED_MEM[idx - 8]
+    if forced:
+        c.update(forced)
+    if CELLS[c["cell"]][2] is None:
+        c["lattice"] = False
+        c["uniq"] = False
+    if c["junk"] and use_script:
+        c["newflt"] = True
+    return c, r
+
+
+def one_scenario(run, seed, idx, mods, use_script=False):
+    refinegrains, columnfile, parameters, grain = mods
+    c, r = draw_config(seed, idx, use_script)
+    bits, flip, ng, omfloat, tol, slop = c["bits"], c["flip"], c["ng"], c["omfloat"], c["tol"], c["slop"]
+    kind, centring, symname = CELLS[c["cell"]]
     p = sim.default_pars(r, flip=flip, bits=bits)
-    ng = int([1, 2, 3, 5, 1, 2][idx % 6])
-    cell = xtal.random_cell(r, "cubic", 3.6, 4.2)
+    cell = make_cell(r, kind)
     B = xtal.Bmat(cell)
+    # --- the true grains
+    if c["plainubi"]:
+        # start file without translations: every grain starts at the parameter file's t_x,t_y,t_z
+        t_common = r.uniform(-400, 400, 3)
+        t_common[2] = r.uniform(-100, 100)
     grains = []
     for g in range(ng):
-        S = xtal.random_sym_stretch(r, 5e-3)
-        UB = xtal.random_rotation(r) @ S @ B
-        t = r.uniform(-500, 500, 3)
-        t[2] = r.uniform(-150, 150)
+        if c["lattice"]:
+            # the symmetry-constrained fit can only return a cell of that symmetry: the truth must have it
+            UB = xtal.random_rotation(r) @ xtal.Bmat(strained_cell(r, cell, kind))
+        else:
+            UB = xtal.random_rotation(r) @ xtal.random_sym_stretch(r, 5e-3) @ B
+        if c["plainubi"]:
+            t = t_common + r.uniform(-40, 40, 3)
+        else:
+            t = r.uniform(-500, 500, 3)
+            t[2] = r.uniform(-150, 150)
         grains.append((UB, t))
     dsm = min(sim.dsmax_on_detector(p), 1.15)
-    hk, _ = sim.make_hkls(cell, "F", dsm)
+    hk, ds = sim.make_hkls(cell, centring, dsm)
+    if len(hk) > 350:    # keep the work per grain bounded for the larger P cells
+        hk = hk[ds < np.sort(ds)[350]]
     s = sim.simulate(p, grains, hk)
     if s is None or min(np.bincount(s["gid"], minlength=ng)) < 25:
         run.count("scenarios_skipped_few_peaks")
         return
-    n = len(s["sc"])
-    omfloat = bool(idx % 2)
-    tol = 0.1
-    desc = dict(index=idx, flip=flip, bits=bits, ngrains=ng, npeaks=n, omfloat=omfloat, pars=p, cell=cell,
-                use_script=use_script)
+    nreal = len(s["sc"])
+    # --- perturbed starting grains
+    scale = min(1.0, tol / 0.1)
+    start = []
+    for (UB, t) in grains:
+        dR = xtal.rot_axis_angle(r.normal(size=3), np.radians(float(r.uniform(0.1, 0.5)) * scale))
+        if c["plainubi"]:
+            start.append(grain.grain(np.linalg.inv(dR @ UB), translation=None))
+        else:
+            start.append(grain.grain(np.linalg.inv(dR @ UB), translation=t + r.uniform(-50, 50, 3)))
+    # what the library will read from the start file (UBI "%.9g", translation "%g"; parameter file: repr)
+    start_u = [as_written(g_.ubi, "%.9g") for g_ in start]
+    start_t = [t_common if c["plainubi"] else as_written(g_.translation, "%g") for g_ in start]
+    # makeuniq re-describes each start lattice by some proper symmetry operation M of the cell; squared hkl errors
+    # are basis dependent when M is not orthogonal (hexagonal), so peak classes are decided for the worst case
+    # over all proper lattice rotations (brute-force set, independent of sym_u)
+    G0 = xtal.metric(cell)
+    auts = lattice_rotations(G0) if c["uniq"] else [np.eye(3)]
+
+    def e_range(sc_, fc_, om_, ubi_, t_):
+        dh = hkl_err(p, sc_, fc_, om_, ubi_, t_)
+        es = np.array([e_under(dh, M_) for M_ in auts])
+        return es.min(axis=0), es.max(axis=0)
+    # --- junk peaks: nowhere near any lattice point of any grain (start or true), so never indexable
+    sc, fc, om, gid, hkl = s["sc"], s["fc"], s["omega"], s["gid"], s["hkl"]
+    njunk = 0
+    if c["junk"]:
+        want = max(3, int(nreal * float(r.uniform(0.05, 0.15))))
+        jsc, jfc, jom = r.uniform(0, 2048, 6 * want), r.uniform(0, 2048, 6 * want), r.uniform(-180, 180, 6 * want)
+        worst = np.full(6 * want, 9.0)
+        for g in range(ng):
+            worst = np.minimum(worst, e_range(jsc, jfc, jom, start_u[g], start_t[g])[0])
+            worst = np.minimum(worst, e_range(jsc, jfc, jom, np.linalg.inv(grains[g][0]), grains[g][1])[0])
+        keep = np.nonzero(worst > (1.3 * tol) ** 2)[0][:want]
+        njunk = len(keep)
+        sc = np.concatenate([sc, jsc[keep]])
+        fc = np.concatenate([fc, jfc[keep]])
+        om = np.concatenate([om, jom[keep]])
+        gid = np.concatenate([gid, np.full(njunk, -1)])
+        hkl = np.concatenate([hkl, np.zeros((njunk, 3), int)])
+    n = nreal + njunk
+    perm = r.permutation(n)
+    sc, fc, om, gid, hkl = sc[perm], fc[perm], om[perm], gid[perm], hkl[perm]
+    real = gid >= 0
+    # stale global translation in the parameter file (must be ignored: the start grains carry their own)
+    pfile = dict(p)
+    if c["plainubi"]:
+        pfile.update(t_x=float(t_common[0]), t_y=float(t_common[1]), t_z=float(t_common[2]))
+    elif c["partrans"]:
+        pfile.update(t_x=float(r.uniform(-400, 400)), t_y=float(r.uniform(-400, 400)), t_z=float(r.uniform(-150, 150)))
+    desc = dict(c, npeaks=n, njunk=njunk, pars=p, cell=cell)
     nsw = bin(bits).count("1")
-    run.case((flip, bits, ng, omfloat, use_script), nontrivial=(nsw >= 2 or ng >= 2),
-             sample=dict(index=idx, flip=flip, bits=bits, ngrains=ng, npeaks=n, omfloat=omfloat, use_script=use_script))
+    dims = (flip, bits, ng, omfloat, slop, tol, c["cell"], c["lattice"], c["uniq"], njunk > 0, c["partrans"], c["plainubi"],
+            c["xcyc"], c["sort"], use_script)
+    run.case(dims, nontrivial=(nsw >= 2 or ng >= 2),
+             sample=dict(index=idx, flip=flip, bits=bits, ngrains=ng, npeaks=n, njunk=njunk, omfloat=omfloat, slop=slop, tol=tol,
+                         cell=kind + centring, lattice=c["lattice"], uniq=c["uniq"], plainubi=c["plainubi"], xcyc=c["xcyc"],
+                         sort=c["sort"], use_script=use_script))
 
     def V(key, what, **kw):
         run.violation(key, what, dict(desc, **kw))
@@ -88,36 +332,47 @@ def one_scenario(run, seed, idx, mods, use_script=False):
         par = os.path.join(tmp, "geo.par")
         ubi = os.path.join(tmp, "start.ubi")
         out = os.path.join(tmp, "out.map")
-        perm = r.permutation(n)
-        sc, fc, om, gid, hkl = s["sc"][perm], s["fc"][perm], s["omega"][perm], s["gid"][perm], s["hkl"][perm]
-        cf = columnfile.colfile_from_dict({"sc": sc, "fc": fc, "omega": om,
+        nflt = os.path.join(tmp, "unindexed.flt")
+        xn, yn = ("xc", "yc") if c["xcyc"] else ("sc", "fc")
+        cf = columnfile.colfile_from_dict({xn: sc, yn: fc, "omega": om,
                                            "Number_of_pixels": np.full(n, 10.0), "avg_intensity": np.full(n, 100.0)})
         cf.writefile(flt)
-        # what the library will read back (4 decimals): the truth for label/hkl purposes is unchanged
-        pp = parameters.parameters(**dict(p, fit_tolerance=0.5))
+        # what the library reads back: sc, fc, omega carry 4 decimals (xc, yc: 6)
+        pfmt = "%f" if c["xcyc"] else "%.4f"
+        scr_, fcr_, omr_ = as_written(sc, pfmt), as_written(fc, pfmt), as_written(om, "%.4f")
+        pp = parameters.parameters(**dict(pfile, fit_tolerance=0.5))
         pp.saveparameters(par)
-        start = []
-        for (UB, t) in grains:
-            dR = xtal.rot_axis_angle(r.normal(size=3), np.radians(float(r.uniform(0.1, 0.5))))
-            g = grain.grain(np.linalg.inv(dR @ UB), translation=t + r.uniform(-50, 50, 3))
-            start.append(g)
         grain.write_grain_file(ubi, start)
-        # Is the single-pass assignment well posed?  With the *starting* grains every peak must be
-        # within tolerance of its generator and of no other grain; otherwise the flow (which fixes
-        # labels before refining) cannot be expected to sort it out (DESIGN.md Corrections).
-        amb = 0
-        e_start = np.array([objective_terms(p, sc, fc, om, g_.ubi, g_.translation, False) for g_ in start])
-        for g in range(ng):
-            mine = gid == g
-            others = np.delete(e_start, g, axis=0)[:, mine] if ng > 1 else np.full((1, int(mine.sum())), 9.0)
-            amb += int(((e_start[g, mine] >= 0.9 * tol * tol) | (others.min(axis=0) < 1.1 * tol * tol)).sum())
-        if amb:
-            run.count("scenarios_ambiguous_at_start")
+        # Is the single-pass assignment well posed, peak by peak?  The flow fixes the labels with the
+        # *starting* grains (arg-min of the squared hkl error over the grains within tolerance) before it
+        # refines (DESIGN.md Corrections).  A peak is 'clear' when its generator is inside the tolerance
+        # (10% margin) and no other grain is both inside the tolerance (10% margin) and within a factor 2 of
+        # the generator's error.  The harness and library errors agree to ~1e-10 relative, so a clear peak
+        # has exactly one possible label.
+        dh_start = [hkl_err(p, scr_, fcr_, omr_, start_u[g], start_t[g]) for g in range(ng)]
+        e_all = np.array([[e_under(dh_start[g], M_) for M_ in auts] for g in range(ng)])     # (ng, nM, n)
+        e_lo, e_hi = e_all.min(axis=1), e_all.max(axis=1)
+        own = np.where(real, e_hi[np.clip(gid, 0, None), np.arange(n)], 9.0)
+        masked = e_lo.copy()
+        masked[np.clip(gid, 0, None)[real], np.arange(n)[real]] = 9.0
+        other = masked.min(axis=0)
+        clear = np.where(real, (own < 0.9 * tol * tol) & ~((other < 1.1 * tol * tol) & (other < 2.0 * own)),
+                         other > 1.1 * tol * tol)
+        nunclear = int((~clear).sum())
+        run.count("peaks_unclear_at_start", nunclear)
         if use_script:
             cmd = [PY, os.path.join(REPO, "scripts", "makemap.py"), "-p", par, "-u", ubi, "-U", out, "-f", flt,
-                   "-t", str(tol), "--no_sort", "--omega_slop", "0.25"]
+                   "-t", str(tol), "--omega_slop", str(slop)]
+            if not c["sort"]:
+                cmd.append("--no_sort")
             if not omfloat:
                 cmd.append("--omega_no_float")
+            if c["lattice"]:
+                cmd += ["-l", symname]
+            if c["uniq"]:
+                cmd += ["-s", symname]
+            if c["newflt"]:
+                cmd += ["-F", nflt]
             pr = subprocess.run(cmd, cwd=tmp, stdout=subprocess.PIPE, stderr=subprocess.STDOUT, timeout=600)
             run.count("makemap_script_runs")
             if pr.returncode != 0 or not os.path.exists(out):
@@ -125,40 +380,108 @@ def one_scenario(run, seed, idx, mods, use_script=False):
                 return
             mem = None
         else:
-            with quiet():
-                o = refinegrains.refinegrains(tolerance=tol, OmFloat=omfloat, OmSlop=0.25)
-                o.loadparameters(par)
-                o.loadfiltered(flt)
-                o.readubis(ubi)
-                o.generate_grains()
-                o.refinepositions()
-                o.refineubis(quiet=True)
-                o.savegrains(out, sort_npks=False)
-                o.scandata[flt].writefile(flt + ".new")
+            try:
+                with quiet():
+                    kw = dict(latticesymmetry=getattr(refinegrains, symname)) if c["lattice"] else {}
+                    o = refinegrains.refinegrains(tolerance=tol, OmFloat=omfloat, OmSlop=slop, **kw)
+                    o.loadparameters(par)
+                    o.loadfiltered(flt)
+                    o.readubis(ubi)
+                    if c["uniq"]:
+                        o.makeuniq(symname)
+                    o.generate_grains()
+                    o.refinepositions()
+                    o.refineubis(quiet=True)
+                    o.savegrains(out, sort_npks=c["sort"])
+                    o.scandata[flt].writefile(flt + ".new")
+            except Exception as e:
+                # the inputs are valid files of well separated, right-handed grains: the flow has no reason to raise
+                V("flow:exception", "the refinement flow raised %s: %s" % (type(e).__name__, str(e)[:200]))
+                return
             mem = o
         run.count("refinement_flows")
-        saved = grain.read_grain_file(out)
-        if len(saved) != ng:
-            V("saved:grain-count", "saved %d grains, expected %d" % (len(saved), ng))
+        for k_ in ("lattice", "uniq", "plainubi", "partrans", "xcyc", "sort"):
+            if c[k_]:
+                run.count("flows_" + k_)
+        if kind != "cubic":
+            run.count("flows_noncubic")
+        saved_list = grain.read_grain_file(out)
+        if len(saved_list) != ng:
+            V("saved:grain-count", "saved %d grains, expected %d" % (len(saved_list), ng))
             return
+        # --- which saved grain is which?  The peak labels are the positions in the *input* grain file; the
+        # saved file may be sorted by npks, and then only the saved name ('<input position>:<peak file>')
+        # links a label to a grain.
+        order = []
+        for sg in saved_list:
+            try:
+                order.append(int(str(getattr(sg, "name", "")).split(":")[0]))
+            except ValueError:
+                order.append(None)
+        if sorted(o_ for o_ in order if o_ is not None) != list(range(ng)):
+            V("saved:names", "saved grain names %r do not identify the %d input grains (labels cannot be linked to grains)"
+              % ([getattr(sg, "name", None) for sg in saved_list], ng))
+            return
+        saved = [None] * ng
+        for pos, k_ in enumerate(order):
+            saved[k_] = saved_list[pos]
+        npk_saved = [int(float(sg.npks)) for sg in saved_list]
+        if c["sort"]:
+            run.count("sorted_saves_checked")
+            if any(npk_saved[i] < npk_saved[i + 1] for i in range(ng - 1)):
+                V("saved:sort-order", "sort_npks: saved npks sequence %r is not non-increasing" % (npk_saved,))
+        elif order != list(range(ng)):
+            V("saved:order", "unsorted save: grains written in order %r" % (order,))
         new = columnfile.columnfile(flt + ".new")
-        lab = np.asarray(new.labels).astype(int)
-        # --- labels vs generator (row order of the file is preserved)
         if new.nrows != n:
             V("saved:rows", "peak file rows %d != %d" % (new.nrows, n))
             return
+        lab = np.asarray(new.labels).astype(int)
         run.count("peaks_checked", n)
-        if not np.array_equal(lab, gid) and amb:
-            run.count("mislabelled_in_ambiguous_scenarios", int((lab != gid).sum()))
-        elif not np.array_equal(lab, gid):
-            k = int(np.nonzero(lab != gid)[0][0])
-            V("labels:not-generator", "peak %d simulated from grain %d is labelled %d (%d of %d wrong)"
-              % (k, gid[k], lab[k], int((lab != gid).sum()), n), peak=k)
-        else:
-            h = np.array([new.h, new.k, new.l]).T
-            if not np.array_equal(np.round(h).astype(int), hkl):
-                k = int(np.nonzero((np.round(h).astype(int) != hkl).any(axis=1))[0][0])
-                V("saved:hkl", "peak %d saved hkl %r != simulated %r" % (k, h[k].tolist(), hkl[k].tolist()), peak=k)
+        # --- labels vs generator, peak by peak (row order of the file is preserved)
+        bad = clear & (lab != gid)
+        run.count("clear_peaks_label_checked", int(clear.sum()))
+        run.count("junk_peaks_checked", int((clear & ~real).sum()))
+        if bad.any():
+            k = int(np.nonzero(bad)[0][0])
+            if real[k]:
+                V("labels:not-generator", "peak %d simulated from grain %d is labelled %d (%d of %d clear peaks wrong)"
+                  % (k, gid[k], lab[k], int(bad.sum()), int(clear.sum())), peak=k)
+            else:
+                V("labels:junk-indexed", "junk peak %d (>= 1.3 tol from every grain) is labelled %d (%d junk peaks labelled)"
+                  % (k, lab[k], int((bad & ~real).sum())), peak=k)
+        okl = bool(np.array_equal(lab, gid))
+        if not okl:
+            run.count("scenarios_with_wrong_labels")
+            run.count("mislabelled_unclear_peaks", int((~clear & (lab != gid)).sum()))
+        hs = np.array([new.h, new.k, new.l]).T
+        hrs = np.array([new.hr, new.kr, new.lr]).T
+        unl = lab < 0
+        if unl.any() and (np.abs(hs[unl]).max() != 0 or np.abs(hrs[unl]).max() != 0):
+            k = int(np.nonzero(unl & ((np.abs(hs) + np.abs(hrs)).sum(axis=1) != 0))[0][0])
+            V("saved:hkl-unindexed", "unindexed peak %d carries h,k,l %r hr,kr,lr %r instead of zeros"
+              % (k, hs[k].tolist(), hrs[k].tolist()), peak=k)
+        # --- the -F file must hold exactly the peaks no grain indexes: the junk, in order
+        if use_script and c["newflt"] and okl:
+            run.count("newflt_files_checked")
+            if not os.path.exists(nflt):
+                V("saved:newflt", "makemap -F did not write the unindexed-peaks file")
+            else:
+                # parsed by hand (an empty table is a legitimate content here)
+                titles, rows = [], []
+                with open(nflt) as fh:
+                    for line in fh:
+                        if line.startswith("#"):
+                            if "=" not in line:
+                                titles = line[1:].split()
+                        elif line.strip():
+                            rows.append([float(x) for x in line.split()])
+                rows = np.array(rows, float).reshape(len(rows), len(titles))
+                got_rows = rows[:, [titles.index("sc"), titles.index("fc"), titles.index("omega")]]
+                want_rows = np.array([scr_, fcr_, omr_]).T[~real]
+                if got_rows.shape != want_rows.shape or (len(want_rows) and np.abs(got_rows - want_rows).max() > 1.01e-4):
+                    V("saved:newflt", "makemap -F file has %d rows, expected exactly the %d unindexable peaks"
+                      % (len(got_rows), len(want_rows)))
         # --- recovered values.  "Within the optimiser's numerical tolerance": the position search is a
         # Nelder-Mead simplex capped at 100 iterations that starts with 0.2um steps and keeps the
         # last *evaluated* point; measured on the unchanged tree over 540 unambiguous grains from
@@ -166,34 +489,172 @@ def one_scenario(run, seed, idx, mods, use_script=False):
         # UBI <= 6e-6 relative.  Thorough run (1137 grains): 0.24 / 8.2um / 1.1e-5.  Per-grain caps are set ~3-8x above that
         # and the run is additionally judged on the median/90th percentile (DESIGN.md Corrections);
         # the worst values of every run are written to the evidence.
-        okl = np.array_equal(lab, gid)
+        # Recovery is judged whenever every peak carries its generator's label: then the optimiser was given
+        # exactly the ideal problem, whose optimum (exact data) is the truth.
+        sign = float(p["omegasign"])
         for g in range(ng):
             UB_t, t_t = grains[g]
             ubi_t = np.linalg.inv(UB_t)
             got = saved[g]
-            eu = np.abs(got.ubi - ubi_t).max() / np.abs(ubi_t).max()
-            et = np.abs(np.asarray(got.translation) - t_t).max()
-            mine = gid == g
-            scr, fcr, omr = np.asarray(new.sc)[mine], np.asarray(new.fc)[mine], np.asarray(new.omega)[mine]
-            f_ref = 1e6 * float(objective_terms(p, scr, fcr, omr, got.ubi, got.translation, omfloat).mean())
-            f_tru = 1e6 * float(objective_terms(p, scr, fcr, omr, ubi_t, t_t, omfloat).mean())
             run.count("grains_checked")
-            if amb or not okl:
+            mine = lab == g
+            nmine = int(mine.sum())
+            if int(float(got.npks)) != nmine:
+                V("saved:npks", "saved npks %d != labelled peaks %d" % (int(float(got.npks)), nmine), grain=g)
+            if nmine == 0:
+                continue
+            # ---- saved per-peak values of this grain = harness model of the saved grain (any scenario)
+            for src in (("mem", "file") if mem is not None else ("file",)):
+                if src == "mem":
+                    col = mem.scandata[flt]
+                    gm = mem.grains[(g, flt)]
+                    t_s, ubi_s = np.array(gm.translation, float), np.array(gm.ubi, float)
+                else:
+                    col = new
+                    t_s, ubi_s = np.array(got.translation, float), np.array(got.ubi, float)
+                sc_s, fc_s, om_s = [np.asarray(getattr(col, k_), float)[mine] for k_ in ("sc", "fc", "omega")]
+                if src == "mem" and (np.abs(sc_s - scr_[mine]).max() > 1e-9 or np.abs(fc_s - fcr_[mine]).max() > 1e-9
+                                     or np.abs(om_s - omr_[mine]).max() > 1e-9):
+                    V("saved:peaks-changed", "grain %d: in-memory sc/fc/omega differ from the values in the input file" % g, grain=g)
+                    break
+                if src == "file":
+                    # the output file prints sc, fc with 4 decimals; the flow used the input values
+                    sc_s, fc_s, om_s = scr_[mine], fcr_[mine], omr_[mine]
+                ocalc = np.asarray(col.omegacalc_per_grain, float)[mine]
+                if omfloat:
+                    d_om = np.asarray(geom.angdiff(ocalc, om_s * sign), float)
+                    # floated omega stays within the slop of the observed one (1e-6: %f print of the column)
+                    if np.abs(d_om).max() > slop + 1.1e-6:
+                        V("saved:omegacalc-slop", "grain %d: saved omegacalc_per_grain is %.6g deg from the observed omega, slop %g (%s)"
+                          % (g, float(np.abs(d_om).max()), slop, src), grain=g)
+                    om_g = ocalc
+                else:
+                    om_g = om_s * sign
+                tth_m, eta_m, g_m, hr_m, lever = model_columns(p, sc_s, fc_s, om_s, t_s, ubi_s, om_g)
+                # tolerances = storage/print precision of each column (+ 1e-9 for double vs long double):
+                #  gx,gy,gz   float64 in memory; "%.4f" in the file -> 5e-5 (+ 1e-7: saved translation %g, omegacalc %f)
+                #  tth/eta_per_grain  float32 columns (rel 2^-24 = 6e-8, taken twice) ; "%f" -> 5e-7; the file translation
+                #             is printed "%g" (6 digits): an origin shift dt moves tth by dt/ray length, eta by dt/(distance from axis)
+                #  hr,kr,lr   float32 columns; hr,kr "%.4f", lr "%f"; the file UBI carries 9 digits (5e-10 rel)
+                f32 = 1.2e-7
+                gtol = 1e-9 if src == "mem" else 5.01e-5 + 1e-7
+                gs = np.array([col.gx, col.gy, col.gz], float).T[mine]
+                e_g = float(np.abs(gs - g_m).max())
+                run.setmax("worst_saved_g_err_" + src, e_g)
+                if not e_g <= gtol:
+                    V("saved:gvector", "grain %d: saved gx,gy,gz differ from the harness model of the saved grain by %.3g (allowed %.3g, %s)"
+                      % (g, e_g, gtol, src), grain=g)
+                tt = np.asarray(col.tth_per_grain, float)[mine]
+                ee = np.asarray(col.eta_per_grain, float)[mine]
+                dt = 0.0
+                if src == "file":
+                    dt = float(np.sqrt(sum((0.5 * 10.0 ** (np.floor(np.log10(abs(x))) - 5)) ** 2 for x in t_s if x != 0)))
+                e_t = float((np.abs(tt - tth_m) - f32 * np.abs(tth_m) - np.degrees(dt / lever[0])).max())
+                e_e = float((np.abs(np.asarray(geom.angdiff(ee, eta_m), float)) - f32 * np.abs(eta_m)
+                             - np.degrees(dt / lever[1])).max())
+                atol = 1e-9 if src == "mem" else 5.01e-7 + 1e-8
+                run.setmax("worst_saved_tth_eta_excess_" + src, max(e_t, e_e))
+                if not (e_t <= atol and e_e <= atol):
+                    V("saved:tth-eta", "grain %d: saved tth/eta_per_grain differ from the harness model of the saved grain by "
+                      "%.3g / %.3g beyond float32 storage (allowed %.3g, %s)" % (g, e_t, e_e, atol, src), grain=g)
+                hh = np.array([col.hr, col.kr, col.lr], float).T[mine]
+                htol = np.array([5.01e-5, 5.01e-5, 5.01e-7]) if src == "file" else np.zeros(3)
+                # error of the *model* g (file: rounded translation/omegacalc/UBI, see above) propagates as |ubi| row sums
+                prop = np.abs(ubi_s).sum(axis=1) * (1e-9 if src == "mem" else 1.2e-7)
+                exc = np.abs(hh - hr_m) - f32 * np.maximum(1.0, np.abs(hr_m)) - htol[None, :] - prop[None, :]
+                if not float(exc.max()) <= 1e-9:
+                    V("saved:hkl-real-model", "grain %d: saved hr,kr,lr differ from UBI.g of the saved grain by %.3g beyond storage precision (%s)"
+                      % (g, float(exc.max()), src), grain=g)
+                frac = np.abs(hr_m - np.rint(hr_m))
+                sure = (frac < 0.49).all(axis=1)
+                hi = np.array([col.h, col.k, col.l], float).T[mine]
+                if not np.array_equal(hi[sure], np.rint(hr_m)[sure]):
+                    V("saved:hkl-int", "grain %d: saved h,k,l are not the rounded hr,kr,lr of the saved grain (%s)" % (g, src), grain=g)
+                if src == "mem":
+                    # drlv2 is the score of the assignment: squared hkl error under the grain the peak was given to,
+                    # either at assignment time (start grain) or for the refined grain
+                    dr = np.asarray(col.drlv2, float)[mine]
+                    e_ref = objective_terms(p, sc_s, fc_s, om_s, ubi_s, t_s, False)
+                    okd = np.abs(dr - e_ref) <= 1e-9 + 1e-6 * dr
+                    for im in range(len(auts)):
+                        okd |= np.abs(dr - e_all[g, im, mine]) <= 1e-9 + 1e-6 * dr
+                    run.count("drlv2_values_checked", nmine)
+                    if not okd.all():
+                        k = int(np.nonzero(mine)[0][np.nonzero(~okd)[0][0]])
+                        V("saved:drlv2", "grain %d peak %d: drlv2 %.6g is neither the assignment score %.6g nor the refined score"
+                          % (g, k, float(np.asarray(col.drlv2)[k]), float(e_all[g, 0, k])), grain=g, peak=k)
+                run.count("saved_column_sets_checked_" + src)
+            # nuniq = number of distinct (h,k,l,sign eta) among the grain's peaks; recount from the file
+            eta_f = np.asarray(new.eta_per_grain, float)[mine]
+            if hasattr(got, "nuniq") and (np.minimum(np.abs(eta_f), 180 - np.abs(eta_f)) > 1e-3).all():
+                want_nu = len(set(map(tuple, np.column_stack([np.rint(hs[mine]).astype(int), np.sign(eta_f).astype(int)]).tolist())))
+                run.count("nuniq_checked")
+                if int(float(got.nuniq)) != want_nu:
+                    V("saved:nuniq", "grain %d: saved nuniq %d, recount of distinct (h,k,l,sign eta) gives %d"
+                      % (g, int(float(got.nuniq)), want_nu), grain=g)
+            elif not hasattr(got, "nuniq"):
+                V("saved:nuniq", "grain %d: no nuniq saved" % g, grain=g)
+            if mem is not None:
+                gm = mem.grains[(g, flt)]
+                if np.abs(got.ubi - gm.ubi).max() > 1e-8 * np.abs(gm.ubi).max():
+                    V("saved:ubi-precision", "saved UBI differs from in-memory refined value beyond 9 digits", grain=g)
+                if np.abs(np.asarray(got.translation) - gm.translation).max() > 1e-5 * max(1.0, np.abs(gm.translation).max()):
+                    V("saved:translation-precision", "saved translation differs from in-memory value beyond 6 digits",
+                      grain=g)
+            # ---- recovery of the truth
+            if not okl:
                 run.count("grains_in_ambiguous_scenarios")
                 continue
+            # makeuniq may re-describe the lattice by a proper symmetry operation M (rows of UBI are recombined):
+            # then got.ubi = M.ubi_t and hkl -> M.hkl, with M an integer, det +1 automorphism of the unstrained metric
+            Mf = np.asarray(got.ubi, float) @ UB_t
+            M = np.rint(Mf)
+            if c["uniq"]:
+                run.count("uniq_grains_checked")
+                if (np.abs(Mf - M).max() > 0.02 or abs(np.linalg.det(M) - 1) > 1e-9
+                        or np.abs(M @ G0 @ M.T - G0).max() > 1e-9 * np.abs(G0).max()):
+                    V("recovered:uniq-operator", "grain %d: refined UBI = M.true UBI with M = %r, not a proper symmetry operation of the cell %r"
+                      % (g, Mf.round(4).tolist(), cell), grain=g)
+                    continue
+                if not np.array_equal(M, np.eye(3)):
+                    run.count("uniq_grains_reoriented")
+            else:
+                M = np.eye(3)
+            ubi_x = M @ ubi_t
+            hkl_x = (hkl[mine] @ M.T).astype(int)
+            eu = np.abs(got.ubi - ubi_x).max() / np.abs(ubi_x).max()
+            et = np.abs(np.asarray(got.translation) - t_t).max()
+            scr, fcr, omr = scr_[mine], fcr_[mine], omr_[mine]
+            f_ref = 1e6 * float(objective_terms(p, scr, fcr, omr, got.ubi, got.translation, omfloat).mean())
+            f_tru = 1e6 * float(objective_terms(p, scr, fcr, omr, ubi_t, t_t, omfloat).mean())
             run.setmax("worst_ubi_rel_err", float(eu))
             run.setmax("worst_translation_err_um", float(et))
             run.setmax("worst_objective_excess", float(f_ref - f_tru))
             run.count("grains_judged")
+            cls = ["ng%d" % ng, "omfloat" if omfloat else "omfixed", "noncubic" if kind != "cubic" else "cubic"]
+            cls += [k_ for k_ in ("lattice", "uniq", "plainubi", "partrans", "xcyc", "sort") if c[k_]]
+            if njunk:
+                cls.append("junk")
+            if ng >= 3 and omfloat:
+                cls.append("omfloat_ng3plus")
+            if ng == 1 and omfloat:
+                cls.append("omfloat_ng1")
+            if use_script:
+                cls.append("script")
+            for k_ in cls:
+                run.count("judged_" + k_)
             run.extra.setdefault("_terr", []).append(float(et))
             run.extra.setdefault("_uerr", []).append(float(eu))
             run.extra.setdefault("_oexc", []).append(float(f_ref - f_tru))
+            if not np.array_equal(np.rint(hs[mine]).astype(int), hkl_x):
+                k = int(np.nonzero(mine)[0][np.nonzero((np.rint(hs[mine]).astype(int) != hkl_x).any(axis=1))[0][0]])
+                V("saved:hkl", "peak %d saved hkl %r != simulated %r%s" % (k, hs[k].tolist(), hkl[k].tolist(),
+                                                                            " (after makeuniq operator)" if c["uniq"] else ""), peak=k)
             if not f_ref <= f_tru + 2.0:
                 V("recovered:objective", "grain %d: refined state has gof %.3g, truth %.3g (1e6.<drlv2>), excess > 2; "
                   "ubi rel err %.3g, translation err %.3g um" % (g, f_ref, f_tru, eu, et), grain=g)
             # saved real-valued hkl of this grain's peaks must be (nearly) the integers they were simulated from
-            hr = np.array([new.hr, new.kr, new.lr]).T[mine]
-            dh = float(np.abs(hr - hkl[mine]).max())
+            dh = float(np.abs(hrs[mine] - hkl_x).max())
             run.setmax("worst_saved_hkl_real_err", dh)
             if not dh <= 5e-3:
                 V("saved:hkl-real", "grain %d: saved hr,kr,lr differ from the simulated integers by %.3g" % (g, dh), grain=g)
@@ -202,15 +663,21 @@ def one_scenario(run, seed, idx, mods, use_script=False):
             if not et <= 25.0:
                 V("recovered:translation", "grain %d translation error %.3g um > 25 (got %r want %r)"
                   % (g, et, list(got.translation), t_t.tolist()), grain=g)
-            if mem is not None:
-                gm = mem.grains[(g, flt)]
-                if np.abs(got.ubi - gm.ubi).max() > 1e-8 * np.abs(gm.ubi).max():
-                    V("saved:ubi-precision", "saved UBI differs from in-memory refined value beyond 9 digits", grain=g)
-                if np.abs(np.asarray(got.translation) - gm.translation).max() > 1e-5 * max(1.0, np.abs(gm.translation).max()):
-                    V("saved:translation-precision", "saved translation differs from in-memory value beyond 6 digits",
-                      grain=g)
-                if int(got.npks) != int((lab == g).sum()):
-                    V("saved:npks", "saved npks %s != labelled peaks %d" % (got.npks, int((lab == g).sum())), grain=g)
+            if c["lattice"]:
+                # the constrained fit must return a cell of the requested symmetry: print precision of the
+                # saved UBI (9 digits, 5e-10 rel per element) amplifies to < 1e-8 on lengths, < 1e-6 deg on angles
+                cg = xtal.cell_from_metric(np.asarray(got.ubi, float) @ np.asarray(got.ubi, float).T)
+                dev = 0.0
+                if kind in ("cubic", "tetragonal", "hexagonal"):
+                    dev = max(dev, abs(cg[0] - cg[1]) / cg[0])
+                if kind == "cubic":
+                    dev = max(dev, abs(cg[0] - cg[2]) / cg[0])
+                want_ang = {"hexagonal": (90, 90, 120), "monoclinic": (90, None, 90)}.get(kind, (90, 90, 90))
+                adev = max(abs(cg[3 + i] - w) for i, w in enumerate(want_ang) if w is not None)
+                run.count("lattice_cells_checked")
+                if dev > 1e-7 or adev > 1e-5:
+                    V("recovered:lattice-symmetry", "grain %d: refined cell %r does not have the requested %s symmetry"
+                      % (g, cg.tolist(), symname), grain=g)
     finally:
         shutil.rmtree(tmp, ignore_errors=True)
 
@@ -224,10 +691,10 @@ def check(run, replay=None):
         one_scenario(run, replay["seed"], cs["index"], mods, cs.get("use_script", False))
         run.nontrivial.update(["replay", "replay2"])
         return
-    n = 36 if run.tier == "quick" else 800
+    n = 64 if run.tier == "quick" else 800
     for i in range(n):
         one_scenario(run, run.seed, i, mods)
-    for i in range(2 if run.tier == "quick" else 24):
+    for i in range(8 if run.tier == "quick" else 60):
         one_scenario(run, run.seed, 1000 + i, mods, use_script=True)
     # run-level statistics: the bulk of the grains must be recovered much better than the per-grain caps
     te = np.array(run.extra.pop("_terr", [0.0]))
@@ -237,14 +704,30 @@ def check(run, replay=None):
     run.extra["translation_err_um"] = pct(te)
     run.extra["ubi_rel_err"] = pct(ue)
     run.extra["objective_excess"] = pct(oe)
-    if len(te) >= 20 and (np.median(te) > 0.75 or np.percentile(te, 90) > 2.0):
+    run.counters["stat_translation_err_um_median"], run.counters["stat_translation_err_um_p90"] = pct(te)["median"], pct(te)["p90"]
+    run.counters["stat_ubi_rel_err_median"], run.counters["stat_ubi_rel_err_p90"] = pct(ue)["median"], pct(ue)["p90"]
+    # Limits = about 3x the largest run-level value measured on the unchanged tree with this workload (thorough seed 0:
+    # 2232 grains, median 0.127um / p90 0.278um, UBI 7.1e-8 / 2.3e-7; quick seeds 0-6, 145-185 grains each:
+    # median 0.126-0.141um, p90 0.25-0.32um, UBI median 6.4e-8-7.9e-8, p90 1.8e-7-3.6e-7).  A run judges >= 40 grains
+    # (required below); the spread of the quick-tier values shows the sampling noise at that size.
+    if len(te) >= 40 and (np.median(te) > 0.4 or np.percentile(te, 90) > 1.0):
         run.violation("recovered:translation-statistics",
-                      "translation errors over %d grains: median %.3g um, 90th percentile %.3g um (limits 0.75 / 2; unchanged tree: 0.15 / 0.3)"
+                      "translation errors over %d grains: median %.3g um, 90th percentile %.3g um (limits 0.4 / 1; unchanged tree: 0.13 / 0.28)"
                       % (len(te), np.median(te), np.percentile(te, 90)), dict(stats=pct(te)))
-    if len(ue) >= 20 and (np.median(ue) > 1e-6 or np.percentile(ue, 90) > 3e-6):
+    if len(ue) >= 40 and (np.median(ue) > 2.5e-7 or np.percentile(ue, 90) > 1.2e-6):
         run.violation("recovered:ubi-statistics",
-                      "UBI relative errors over %d grains: median %.3g, 90th percentile %.3g (limits 1e-6 / 3e-6; unchanged tree: 1.5e-7 / 5e-7)"
+                      "UBI relative errors over %d grains: median %.3g, 90th percentile %.3g (limits 2.5e-7 / 1.2e-6; unchanged tree: 7e-8 / 2.3e-7)"
                       % (len(ue), np.median(ue), np.percentile(ue, 90)), dict(stats=pct(ue)))
-    run.require_counter("grains_judged", 20)
+    run.require_counter("grains_judged", 40)
+    # the exemption for scenarios in which some ambiguous peak went to another grain must stay an exception
+    if run.counters.get("scenarios_with_wrong_labels", 0) > 0.25 * run.counters.get("refinement_flows", 0):
+        run.inconc("more than a quarter of the scenarios (%d of %d) were exempt from the recovery verdict (ambiguous starts)"
+                   % (run.counters.get("scenarios_with_wrong_labels", 0), run.counters.get("refinement_flows", 0)))
     run.require_counter("peaks_checked", 1000)
     run.require_counter("makemap_script_runs", 1)
+    for k_ in ("judged_ng1", "judged_ng2", "judged_ng3", "judged_ng5", "judged_omfloat_ng1", "judged_omfloat_ng3plus",
+               "judged_omfixed", "judged_noncubic", "judged_lattice", "judged_uniq", "judged_plainubi", "judged_partrans",
+               "judged_xcyc", "judged_sort", "judged_junk", "judged_script", "junk_peaks_checked", "lattice_cells_checked",
+               "saved_column_sets_checked_mem", "saved_column_sets_checked_file", "nuniq_checked", "drlv2_values_checked",
+               "newflt_files_checked", "sorted_saves_checked"):
+        run.require_counter(k_, 1)
